@@ -17,6 +17,15 @@ and -- a documented tolerance -- the four non-ASCII characters that Python's `re
 
 Node shapes:  ('e', tag, attrs, children)   attrs = list of (name, tokens) in source order
               ('t', tokens)   ('c', tokens) comment   ('p', tokens) processing instruction   ('r', str) raw script/style text
+
+Relation to the proved Lean reader `Ser.readForest` (cross-checked by corr/readers.py, 0 disagreements): in strict mode
+(`lenient_void=False`) the two accept the same strings and read the same forest, except where this reader follows the
+HTML syntax more liberally, on purpose: (1) a tag / attribute name is any run without white space and `/>=<"'&`
+(Lean: [A-Za-z0-9:_.-]+); (2) any run of white space separates attributes and may precede `>` (Lean: exactly one blank
+before each attribute and before `/>`); (3) script / style text runs to `</script`, `<` included (Lean: text without
+`<`).  It is stricter in one place: comment / PI content is tokenised like text (Lean keeps it verbatim, so
+`<!-- a < b -->` passes there and not here).  `lenient_void=True` additionally accepts both void spellings and valueless
+attributes in both formats and is not comparable.
 """
 import re
 
